@@ -46,7 +46,7 @@ use sage_core::spectrum::{Precursor, ProcessedSpectrum, RawSpectrum, Representat
 use std::collections::HashMap;
 use std::sync::{Arc, Mutex, OnceLock};
 
-pub const OPS: &[&str] = &["search", "batch", "downstream"];
+pub const OPS: &[&str] = &["search", "batch", "downstream", "alignpools"];
 pub const INFO: Info = Info {
     rule: "a random FASTA (2-10 proteins, tryptic, optional decoys) is digested with the real Parameters::build; \
            spectra are synthesised from database peptides' b/y ladders (70-100% of the ions, random intensities) \
@@ -64,7 +64,9 @@ pub const INFO: Info = Info {
            in as leading runs of 1-8, alternating runs, trailing runs, MS1-only files (pattern table MS1_PATTERNS + random), an occasional MS3 scan, TMT6/MS2 quant on in every \
            second case, \
            LFQ on, every batch size x pools of 2,3,4,8,16 threads x 2 repetitions; the reply carries the MS1 side of \
-           SageResults (count per file, digests). downstream: 120-650 spectra, decoys on, the sequential search result rescored by \
+           SageResults (count per file, digests). alignpools: the real global_alignment on one PSM list (8-200 PSMs over 2-12 files, a few shared peptides, in \
+           file order and shuffled) inside pools of 1,2,3,4,8,16,32 threads x 2: max_rt/slope/intercept and every \
+           aligned_rt must be bit-identical to the 1-thread run. downstream: 120-650 spectra, decoys on, the sequential search result rescored by \
            score_psms (KDE + LDA + PEP) in pools of 1,1,2,3,4,8,16,32 threads. non-trivial = at least 2 PSMs reported and at \
            least one parallel configuration; distinct by request",
     serial: true,
@@ -795,7 +797,57 @@ fn exec_batch(r: &Req) -> Option<String> {
     Some(o.finish())
 }
 
+/// `alignpools nfiles [n (file_id peptide_ix label u32 spectrum_q u32 rt)…] [C threads…] reps`
+///   the real `global_alignment` on the SAME PSM list inside rayon pools of the given sizes (first one: 1 thread)
+/// reply: K then per run: threads [nfiles (u32 max_rt u32 slope u32 intercept)…] [n u32 aligned_rt…]
+fn exec_alignpools(t: &mut Toks) -> Option<String> {
+    let nfiles = t.usize()?;
+    let rows = t.list(|t| Some((t.usize()?, t.usize()?, t.i64()?, t.f32()?, t.f32()?)))?;
+    let pools = t.list(|t| t.usize())?;
+    let reps = t.usize()?;
+    if !t.done() || reps == 0 || reps > 16 || pools.len() > 64 || nfiles > 4096 || rows.iter().any(|r| r.0 >= nfiles) {
+        return None;
+    }
+    let feats: Vec<Feature> = rows
+        .iter()
+        .map(|&(file, pep, label, q, rt)| {
+            let mut f = super::util::blank_feature();
+            f.file_id = file;
+            f.peptide_idx = sage_core::database::PeptideIx(pep as u32);
+            f.label = label as i32;
+            f.spectrum_q = q;
+            f.rt = rt;
+            f.aligned_rt = rt;
+            f
+        })
+        .collect();
+    let mut o = Out::new();
+    o.n(pools.len() * reps);
+    for &threads in &pools {
+        if threads == 0 || threads > 64 {
+            return None;
+        }
+        let p = pool(threads);
+        for _ in 0..reps {
+            let mut f = feats.clone();
+            let al = p.install(|| sage_core::ml::retention_alignment::global_alignment(&mut f, nfiles));
+            o.n(threads).n(al.len());
+            for a in &al {
+                o.f32(a.max_rt).f32(a.slope).f32(a.intercept);
+            }
+            o.n(f.len());
+            for x in &f {
+                o.f32(x.aligned_rt);
+            }
+        }
+    }
+    Some(o.finish())
+}
+
 pub fn exec(op: &str, t: &mut Toks) -> Option<String> {
+    if op == "alignpools" {
+        return exec_alignpools(t);
+    }
     let r = read_req(t)?;
     if r.reps == 0 || r.reps > 64 || r.configs.len() > 256 {
         return None;
@@ -1196,6 +1248,41 @@ pub fn gen(rng: &mut Rng, tier: Tier, emit: &mut dyn FnMut(Case)) {
         if std::env::var("C11_CHIMERIC_STATS").is_ok() {
             eprintln!("chimeric case {i}: spectra {searched} multi-psm {multi} psms {npsm}");
         }
+    }
+    // ---------------------------------------------------------------- alignpools: global_alignment across pools
+    let n_align = if quick { 40 } else { 600 };
+    for i in 0..n_align {
+        let nfiles = 2 + rng.below(11);
+        let n = 8 + rng.below(if i % 4 == 0 { 25 } else { 193 });
+        let npep = 2 + rng.below(30);
+        let scale: Vec<f32> = (0..nfiles).map(|_| 5.0 + (rng.unit() * 150.0) as f32).collect();
+        let mut rows: Vec<(usize, usize, i64, f32, f32)> = (0..n)
+            .map(|_| {
+                let file = rng.below(nfiles);
+                let label = if rng.chance(1, 8) { -1 } else { 1 };
+                let q = if rng.chance(1, 6) { 0.05 } else { 0.001 };
+                (file, rng.below(npep), label, q, (rng.unit() as f32) * scale[file])
+            })
+            .collect();
+        let ordered = i % 2 == 0;
+        if ordered {
+            rows.sort_by_key(|r| r.0); // PSMs in file order, as batch_files delivers them
+        }
+        let mut o = Out::new();
+        o.raw("alignpools").n(nfiles).n(rows.len());
+        for r in &rows {
+            o.n(r.0).n(r.1).n(r.2).f32(r.3).f32(r.4);
+        }
+        o.n(7);
+        for t in [1usize, 2, 3, 4, 8, 16, 32] {
+            o.n(t);
+        }
+        o.n(2);
+        emit(Case::new(o.finish())
+            .tag("alignpools")
+            .tag(if ordered { "alignpools:file-order" } else { "alignpools:shuffled" })
+            .tag_if(n < 33, "alignpools:few-psms")
+            .nontrivial(true));
     }
     // ---------------------------------------------------------------- downstream
     let n_down = if quick { 4 } else { 40 };
